@@ -652,42 +652,77 @@ Proof. unfold analog_indices, zrange. destruct (typ =? 1); [|reflexivity]. now r
 Definition analog_cols (typ c0 c1 c2 c3 : Z) (r : list Z) : list Z :=
   map (fun i => nth (Z.to_nat i) r 0) (analog_indices typ c0 c1 c2 c3).
 
-Lemma read_sync_layout typ ntr c0 c1 c2 c3 start stop one thr gain floors raw :
+(* the analog volts of the selected rows, as read_sync_analog returns them *)
+Definition analog_volts (typ c0 c1 c2 c3 gain : Z) (sel : list (list Z)) : list (list Z) :=
+  map (fun r => map (fun v => v * gain) (analog_cols typ c0 c1 c2 c3 r)) sel.
+
+Lemma read_sync_digital_one typ ntr c0 c1 c2 c3 start stop raw :
+  nsync_of typ c0 c1 c2 c3 = 1 -> 1 <= ntr ->
+  (forall r, In r raw -> Z.of_nat (length r) = ntr) ->
+  read_sync_digital typ ntr c0 c1 c2 c3 start stop raw =
+  Some (map (fun r => split_word (nth (Z.to_nat (ntr - 1)) r 0)) (slice_rows start stop raw)).
+Proof.
+  intros Hns Hntr Hrect. set (sel := slice_rows start stop raw).
+  assert (Hsel : forall r, In r sel -> Z.of_nat (length r) = ntr).
+  { intros r Hr. apply Hrect. unfold sel in Hr. now apply slice_rows_incl in Hr. }
+  unfold read_sync_digital, sync_indices. rewrite Hns. fold sel.
+  change (zrange (Z.to_nat 1)) with [0]. cbn [map].
+  rewrite (all_some_map _ (fun r => nth (Z.to_nat (ntr - 1)) r 0)).
+  - unfold split_sync. now rewrite map_map.
+  - intros r Hr. replace (ntr - 1 + 0) with (ntr - 1) by lia. apply get_col_ok.
+    rewrite (Hsel r Hr). lia.
+Qed.
+
+Lemma read_sync_analog_ok typ ntr c0 c1 c2 c3 start stop gain raw :
+  (forall r, In r raw -> Z.of_nat (length r) = ntr) ->
+  (forall i, In i (analog_indices typ c0 c1 c2 c3) -> 0 <= i < ntr) ->
+  read_sync_analog typ ntr c0 c1 c2 c3 start stop gain raw =
+  Some (match analog_indices typ c0 c1 c2 c3 with
+        | [] => None
+        | _ => Some (analog_volts typ c0 c1 c2 c3 gain (slice_rows start stop raw))
+        end).
+Proof.
+  intros Hrect Hidx. set (sel := slice_rows start stop raw).
+  assert (Hsel : forall r, In r sel -> Z.of_nat (length r) = ntr).
+  { intros r Hr. apply Hrect. unfold sel in Hr. now apply slice_rows_incl in Hr. }
+  unfold read_sync_analog, analog_volts, analog_cols. fold sel.
+  destruct (analog_indices typ c0 c1 c2 c3) as [|i0 idx] eqn:Eidx; [reflexivity|].
+  rewrite (all_some_map _ (fun r => map (fun i => nth (Z.to_nat i) r 0) (i0 :: idx))).
+  - now rewrite map_map.
+  - intros r Hr. unfold gather_cols. apply all_some_map. intros i Hi. apply get_col_ok.
+    rewrite (Hsel r Hr). apply Hidx. exact Hi.
+Qed.
+
+(* read_sync = digital lines ++ thresholded analog lines, row by row *)
+Lemma read_sync_layout typ ntr c0 c1 c2 c3 start stop one thr gain use_floor raw :
   nsync_of typ c0 c1 c2 c3 = 1 -> 1 <= ntr ->
   (forall r, In r raw -> Z.of_nat (length r) = ntr) ->
   (forall i, In i (analog_indices typ c0 c1 c2 c3) -> 0 <= i < ntr) ->
-  (floors = None \/ slice_rows start stop raw <> [] \/ analog_indices typ c0 c1 c2 c3 = []) ->
-  read_sync typ ntr c0 c1 c2 c3 start stop one thr gain floors raw =
+  (use_floor = false \/ slice_rows start stop raw <> [] \/ analog_indices typ c0 c1 c2 c3 = []) ->
+  let sel := slice_rows start stop raw in
+  let an := analog_volts typ c0 c1 c2 c3 gain sel in
+  let floors := floors_of use_floor an (length (analog_indices typ c0 c1 c2 c3)) in
+  read_sync typ ntr c0 c1 c2 c3 start stop one thr gain use_floor raw =
   Some (map (fun r => split_word (nth (Z.to_nat (ntr - 1)) r 0)
-                      ++ digitise_row one thr gain floors (analog_cols typ c0 c1 c2 c3 r))
-            (slice_rows start stop raw)).
+                      ++ digitise_row (10 * one) (10 * thr) 10 floors
+                           (map (fun v => v * gain) (analog_cols typ c0 c1 c2 c3 r)))
+            sel).
 Proof.
-  intros Hns Hntr Hrect Hidx Hfl.
-  set (sel := slice_rows start stop raw) in *.
-  assert (Hsel : forall r, In r sel -> Z.of_nat (length r) = ntr).
-  { intros r Hr. apply Hrect. unfold sel in Hr. now apply slice_rows_incl in Hr. }
-  assert (Hdig : read_sync_digital typ ntr c0 c1 c2 c3 start stop raw =
-                 Some (map (fun r => split_word (nth (Z.to_nat (ntr - 1)) r 0)) sel)).
-  { unfold read_sync_digital, sync_indices. rewrite Hns. fold sel.
-    change (zrange (Z.to_nat 1)) with [0]. cbn [map].
-    rewrite (all_some_map _ (fun r => nth (Z.to_nat (ntr - 1)) r 0)).
-    - unfold split_sync. now rewrite map_map.
-    - intros r Hr. replace (ntr - 1 + 0) with (ntr - 1) by lia. apply get_col_ok.
-      rewrite (Hsel r Hr). lia. }
-  unfold read_sync. rewrite Hdig. fold sel. unfold analog_cols.
+  intros Hns Hntr Hrect Hidx Hfl sel an floors.
+  unfold read_sync. rewrite (read_sync_digital_one _ _ _ _ _ _ _ _ _ Hns Hntr Hrect).
+  rewrite (read_sync_analog_ok _ _ _ _ _ _ _ _ _ _ Hrect Hidx). fold sel.
+  unfold floors, an, analog_volts, analog_cols.
   destruct (analog_indices typ c0 c1 c2 c3) as [|i0 idx] eqn:Eidx.
-  - apply f_equal. apply map_ext. intros r. cbn [map]. unfold digitise_row. cbn [length seq combine map]. symmetry. apply app_nil_r.
-  - rewrite (all_some_map _ (fun r => map (fun i => nth (Z.to_nat i) r 0) (i0 :: idx))).
-    + destruct floors as [fl|].
-      * destruct sel as [|r0 sel'] eqn:Es.
-        -- exfalso. destruct Hfl as [H|[H|H]]; [discriminate|now apply H|discriminate].
-        -- rewrite <- Es. set (an := map _ sel).
-           assert (Han : an <> []) by (unfold an; rewrite Es; discriminate).
-           destruct an as [|a0 an'] eqn:Ean; [congruence|].
-           rewrite <- Ean. unfold an. rewrite map_map. apply hconcat_map.
-      * rewrite map_map. apply hconcat_map.
-    + intros r Hr. unfold gather_cols. apply all_some_map. intros i Hi. apply get_col_ok.
-      rewrite (Hsel r Hr). apply Hidx. exact Hi.
+  - apply f_equal. apply map_ext. intros r. cbn [map]. unfold digitise_row.
+    cbn [length seq combine map]. symmetry. apply app_nil_r.
+  - fold sel. set (A := map (fun r => map (fun v => v * gain) (map (fun i => nth (Z.to_nat i) r 0) (i0 :: idx))) sel).
+    destruct use_floor.
+    + destruct sel as [|r0 sel'] eqn:Es.
+      * exfalso. destruct Hfl as [H|[H|H]]; [discriminate|now apply H|discriminate].
+      * assert (HA : A <> []) by (unfold A; discriminate).
+        destruct A as [|a0 A'] eqn:EA; [congruence|]. rewrite <- EA. unfold A.
+        rewrite map_map. apply hconcat_map.
+    + destruct A eqn:EA; rewrite <- EA; unfold A; rewrite map_map; apply hconcat_map.
 Qed.
 
 (* ------------------------------------------------------------------ *)
@@ -897,16 +932,16 @@ Qed.
 (* the whole path: raw int16 matrix whose last column holds the written words
    (all other channels arbitrary) -> Reader.read_sync over the whole file ->
    fronts on column k of the returned array *)
-Lemma ttl_through_reader typ ntr c0 c1 c2 c3 one thr gain floors raw lines k init evs :
+Lemma ttl_through_reader typ ntr c0 c1 c2 c3 one thr gain use_floor raw lines k init evs :
   nsync_of typ c0 c1 c2 c3 = 1 -> 1 <= ntr ->
   (forall r, In r raw -> Z.of_nat (length r) = ntr) ->
   (forall i, In i (analog_indices typ c0 c1 c2 c3) -> 0 <= i < ntr) ->
-  (floors = None \/ raw <> [] \/ analog_indices typ c0 c1 c2 c3 = []) ->
+  (use_floor = false \/ raw <> [] \/ analog_indices typ c0 c1 c2 c3 = []) ->
   map (fun r => nth (Z.to_nat (ntr - 1)) r 0) raw = map encode_word (render (length raw) lines) ->
   length lines = 16%nat -> (k < 16)%nat -> nth k lines (0, []) = (init, evs) ->
   StronglySorted Z.lt evs -> (forall e, In e evs -> 1 <= e < Z.of_nat (length raw)) ->
   exists rows,
-    read_sync typ ntr c0 c1 c2 c3 0 (Z.of_nat (length raw)) one thr gain floors raw = Some rows /\
+    read_sync typ ntr c0 c1 c2 c3 0 (Z.of_nat (length raw)) one thr gain use_floor raw = Some rows /\
     length rows = length raw /\
     fst (fronts1 1 (column k rows)) = evs /\
     forall j, (j < length evs)%nat ->
@@ -915,10 +950,10 @@ Proof.
   intros Hns Hntr Hrect Hidx Hfl Hw Hl Hk Hn Hs Hr.
   eexists. split.
   - apply read_sync_layout; try assumption. rewrite slice_rows_all. exact Hfl.
-  - rewrite slice_rows_all. split; [apply map_length|].
-    assert (Hcol : column k (map (fun r => split_word (nth (Z.to_nat (ntr - 1)) r 0) ++
-                      digitise_row one thr gain floors (analog_cols typ c0 c1 c2 c3 r)) raw) =
-                   column k (split_sync (map encode_word (render (length raw) lines)))).
+  - cbv zeta. rewrite slice_rows_all. split; [apply map_length|].
+    match goal with |- fst (fronts1 1 (column k (map ?F raw))) = _ /\ _ =>
+      assert (Hcol : column k (map F raw) =
+                     column k (split_sync (map encode_word (render (length raw) lines)))) end.
     { rewrite <- Hw. unfold column, split_sync. rewrite !map_map. apply map_ext. intros r.
       apply app_nth1. rewrite split_word_length. exact Hk. }
     rewrite Hcol. fold (ttl_roundtrip (length raw) lines k).
@@ -1096,4 +1131,214 @@ Proof.
   unfold fronts2. apply (sorted_map lex_lt); [|apply where2_sorted].
   intros [[r c] v] [[r' c'] v'] H. unfold lex_lt, bump in *. cbn [fst snd] in *.
   destruct (axis =? 0); cbn [fst snd]; lia.
+Qed.
+
+(* ------------------------------------------------------------------ *)
+(* the percentile floor                                                 *)
+(* ------------------------------------------------------------------ *)
+From Coq Require Import Permutation.
+
+Lemma insert_perm a l : Permutation (insert a l) (a :: l).
+Proof.
+  induction l as [|b t IH]; cbn [insert]; [apply Permutation_refl|].
+  destruct (a <=? b); [apply Permutation_refl|].
+  eapply Permutation_trans; [apply perm_skip, IH|apply perm_swap].
+Qed.
+
+Lemma sort_perm l : Permutation (sort l) l.
+Proof.
+  induction l as [|a t IH]; [apply Permutation_refl|]. unfold sort. cbn [fold_right]. fold (sort t).
+  eapply Permutation_trans; [apply insert_perm|now apply perm_skip].
+Qed.
+
+Lemma insert_hd b a t : b <= a -> HdRel Z.le b t -> HdRel Z.le b (insert a t).
+Proof.
+  intros Hba H. destruct t as [|c t]; cbn [insert]; [constructor; exact Hba|].
+  inversion H; subst. destruct (a <=? c); constructor; assumption.
+Qed.
+
+Lemma insert_sorted a l : Sorted Z.le l -> Sorted Z.le (insert a l).
+Proof.
+  induction 1 as [|b t Hs IH Hh]; cbn [insert]; [repeat constructor|].
+  destruct (a <=? b) eqn:E; [apply Z.leb_le in E|apply Z.leb_gt in E].
+  - constructor; [constructor; assumption|constructor; exact E].
+  - constructor; [exact IH|]. apply insert_hd; [lia|exact Hh].
+Qed.
+
+Lemma sort_sorted l : StronglySorted Z.le (sort l).
+Proof.
+  apply Sorted_StronglySorted; [intros x y z; apply Z.le_trans|].
+  induction l as [|a t IH]; [constructor|]. unfold sort. cbn [fold_right]. now apply insert_sorted.
+Qed.
+
+Lemma sort_length l : length (sort l) = length l.
+Proof. apply Permutation_length, sort_perm. Qed.
+
+Lemma sorted_nth_le s : StronglySorted Z.le s -> forall i j, (i <= j)%nat -> (j < length s)%nat ->
+  nth i s 0 <= nth j s 0.
+Proof.
+  induction 1 as [|a t Hs IH Hf]; intros i j Hij Hj; [cbn in Hj; lia|].
+  destruct i as [|i]; destruct j as [|j]; cbn [nth length] in *; try lia.
+  - rewrite Forall_forall in Hf. apply Hf, nth_In. lia.
+  - apply IH; lia.
+Qed.
+
+Lemma pct_indices n : 1 <= n ->
+  0 <= pct_lo n /\ pct_lo n <= pct_hi n /\ pct_hi n <= n - 1 /\ pct_hi n <= pct_lo n + 1 /\
+  0 <= pct_g n < 10 /\ 10 * pct_lo n + pct_g n = n - 1.
+Proof.
+  intros Hn. unfold pct_hi, pct_lo, pct_g.
+  pose proof (Z.div_mod (n - 1) 10 ltac:(lia)). pose proof (Z.mod_pos_bound (n - 1) 10 ltac:(lia)).
+  assert (0 <= (n - 1) / 10) by (apply Z.div_pos; lia). lia.
+Qed.
+
+(* np.percentile(col, 10) = linear interpolation between two consecutive
+   order statistics of the column *)
+Lemma pct10x_spec col : col <> [] ->
+  let s := sort col in let n := Z.of_nat (length col) in
+  let a := nth (Z.to_nat (pct_lo n)) s 0 in let b := nth (Z.to_nat (pct_hi n)) s 0 in
+  Permutation s col /\ StronglySorted Z.le s /\
+  pct10x col = 10 * a + (b - a) * pct_g n /\
+  a <= b /\ 10 * a <= pct10x col <= 10 * b /\
+  (pct_g n = 0 \/ a = b -> pct10x col = 10 * a).
+Proof.
+  intros Hne s n a b.
+  assert (Hn : 1 <= n) by (subst n; destruct col; [congruence|cbn [length]; lia]).
+  destruct (pct_indices n Hn) as (H0 & H1 & H2 & H3 & H4 & H5).
+  split; [apply sort_perm|]. split; [apply sort_sorted|]. split; [reflexivity|].
+  assert (Hab : a <= b).
+  { apply sorted_nth_le; [apply sort_sorted|lia|]. unfold s. rewrite sort_length. subst n. lia. }
+  split; [exact Hab|]. unfold pct10x. fold s. fold n. fold a. fold b.
+  split; [nia|]. intros [Hg| ->]; [rewrite Hg|]; lia.
+Qed.
+
+(* ------------------------------------------------------------------ *)
+(* an analog line of read_sync depends on its own channel only          *)
+(* ------------------------------------------------------------------ *)
+
+Lemma some_inj {A} (a b : A) : Some a = Some b -> a = b.
+Proof. congruence. Qed.
+
+Lemma nth_map_mul gain l k : nth k (map (fun v => v * gain) l) 0 = nth k l 0 * gain.
+Proof. exact (map_nth (fun v => v * gain) l 0 k). Qed.
+
+Lemma analog_cols_nth typ c0 c1 c2 c3 r k : (k < length (analog_indices typ c0 c1 c2 c3))%nat ->
+  nth k (analog_cols typ c0 c1 c2 c3 r) 0 =
+  nth (Z.to_nat (nth k (analog_indices typ c0 c1 c2 c3) 0)) r 0.
+Proof.
+  intros Hk. unfold analog_cols.
+  set (g := fun i : Z => nth (Z.to_nat i) r 0).
+  rewrite (nth_indep _ 0 (g 0)) by (rewrite map_length; exact Hk).
+  exact (map_nth g _ 0 k).
+Qed.
+
+Lemma column_analog_volts typ c0 c1 c2 c3 gain sel k :
+  (k < length (analog_indices typ c0 c1 c2 c3))%nat ->
+  column k (analog_volts typ c0 c1 c2 c3 gain sel) =
+  map (fun r => nth (Z.to_nat (nth k (analog_indices typ c0 c1 c2 c3) 0)) r 0 * gain) sel.
+Proof.
+  intros Hk. unfold column, analog_volts. rewrite map_map. apply map_ext. intros r.
+  rewrite nth_map_mul, analog_cols_nth by exact Hk. reflexivity.
+Qed.
+
+Lemma analog_line_alone typ ntr c0 c1 c2 c3 start stop one thr gain use_floor raw rows k j :
+  nsync_of typ c0 c1 c2 c3 = 1 -> 1 <= ntr ->
+  (forall r, In r raw -> Z.of_nat (length r) = ntr) ->
+  (forall i, In i (analog_indices typ c0 c1 c2 c3) -> 0 <= i < ntr) ->
+  read_sync typ ntr c0 c1 c2 c3 start stop one thr gain use_floor raw = Some rows ->
+  let sel := slice_rows start stop raw in
+  let ch := Z.to_nat (nth k (analog_indices typ c0 c1 c2 c3) 0) in
+  (k < length (analog_indices typ c0 c1 c2 c3))%nat -> (j < length sel)%nat ->
+  nth (16 + k) (nth j rows []) 0 =
+  digitise (10 * one) (10 * thr)
+    (if use_floor then pct10x (map (fun r => nth ch r 0 * gain) sel) else 0)
+    (nth ch (nth j sel []) 0 * gain * 10).
+Proof.
+  intros Hns Hntr Hrect Hidx Hrs sel ch Hk Hj.
+  assert (Hfl : use_floor = false \/ sel <> [] \/ analog_indices typ c0 c1 c2 c3 = []).
+  { right. left. intros E. rewrite E in Hj. cbn in Hj. lia. }
+  pose proof (read_sync_layout typ ntr c0 c1 c2 c3 start stop one thr gain use_floor raw
+                Hns Hntr Hrect Hidx Hfl) as HL. cbv zeta in HL. fold sel in HL.
+  rewrite HL in Hrs. apply some_inj in Hrs. rewrite <- Hrs. clear Hrs HL.
+  match goal with |- nth _ (nth j (map ?F sel) []) 0 = _ => set (F0 := F) end.
+  rewrite (nth_indep _ [] (F0 [])) by (rewrite map_length; exact Hj).
+  rewrite (map_nth F0). unfold F0.
+  rewrite app_nth2 by (rewrite split_word_length; lia).
+  rewrite split_word_length. replace (16 + k - 16)%nat with k by lia.
+  rewrite digitise_row_nth by (unfold analog_cols; rewrite !map_length; exact Hk).
+  rewrite nth_map_mul, analog_cols_nth by exact Hk. fold ch.
+  f_equal. unfold floors_of. destruct use_floor; [|reflexivity].
+  cbn [floor_at]. unfold floors10.
+  set (G := fun k0 : nat => pct10x (column k0 (analog_volts typ c0 c1 c2 c3 gain sel))).
+  rewrite (nth_indep _ 0 (G 0%nat)) by (rewrite map_length, seq_length; exact Hk).
+  rewrite (map_nth G), seq_nth by exact Hk. unfold G. cbn [Nat.add].
+  now rewrite column_analog_volts.
+Qed.
+
+(* ------------------------------------------------------------------ *)
+(* read_sync = read_sync_digital ++ thresholded read_sync_analog        *)
+(* ------------------------------------------------------------------ *)
+
+Lemma combine_map_map {A B C} (f : A -> B) (g : A -> C) l :
+  combine (map f l) (map g l) = map (fun x => (f x, g x)) l.
+Proof. induction l as [|a l IH]; cbn; [reflexivity|]. now rewrite IH. Qed.
+
+Lemma read_sync_decomposition typ ntr c0 c1 c2 c3 start stop one thr gain use_floor raw :
+  nsync_of typ c0 c1 c2 c3 = 1 -> 1 <= ntr ->
+  (forall r, In r raw -> Z.of_nat (length r) = ntr) ->
+  (forall i, In i (analog_indices typ c0 c1 c2 c3) -> 0 <= i < ntr) ->
+  (use_floor = false \/ slice_rows start stop raw <> [] \/ analog_indices typ c0 c1 c2 c3 = []) ->
+  exists D A,
+    read_sync_digital typ ntr c0 c1 c2 c3 start stop raw = Some D /\
+    read_sync_analog typ ntr c0 c1 c2 c3 start stop gain raw =
+      Some (match analog_indices typ c0 c1 c2 c3 with [] => None | _ => Some A end) /\
+    length D = length (slice_rows start stop raw) /\ length A = length D /\
+    read_sync typ ntr c0 c1 c2 c3 start stop one thr gain use_floor raw =
+      Some (map (fun da => fst da ++
+                   digitise_row (10 * one) (10 * thr) 10
+                     (floors_of use_floor A (length (analog_indices typ c0 c1 c2 c3))) (snd da))
+                (combine D A)).
+Proof.
+  intros Hns Hntr Hrect Hidx Hfl.
+  exists (map (fun r => split_word (nth (Z.to_nat (ntr - 1)) r 0)) (slice_rows start stop raw)).
+  exists (analog_volts typ c0 c1 c2 c3 gain (slice_rows start stop raw)).
+  split; [now apply read_sync_digital_one|]. split; [now apply read_sync_analog_ok|].
+  split; [apply map_length|]. split; [unfold analog_volts; now rewrite !map_length|].
+  rewrite (read_sync_layout typ ntr c0 c1 c2 c3 start stop one thr gain use_floor raw
+             Hns Hntr Hrect Hidx Hfl). cbv zeta.
+  unfold analog_volts at 3. rewrite combine_map_map, map_map. reflexivity.
+Qed.
+
+(* ------------------------------------------------------------------ *)
+(* 0/1 trains held in containers without a sign (bool, uint8)           *)
+(* ------------------------------------------------------------------ *)
+
+Lemma where_from_map_eq (f g : Z -> bool) l : forall l' i,
+  map f l = map g l' -> where_from i f l = where_from i g l'.
+Proof.
+  induction l as [|v t IH]; intros [|v' t'] i H; cbn in H; try discriminate; [reflexivity|].
+  injection H as H1 H2. cbn [where_from]. rewrite H1, (IH t' (i + 1) H2). reflexivity.
+Qed.
+
+Lemma diff_c_changes kind x : kind = 1 \/ kind = 2 -> binary x ->
+  map (fun v => 1 <=? v) (diff_c kind x) = map (fun v => 1 <=? Z.abs v) (diff x).
+Proof.
+  intros Hk. induction x as [|a t IH]; intros Hb; [reflexivity|].
+  destruct t as [|b t]; [reflexivity|].
+  assert (Hbt : binary (b :: t)) by (intros c Hc; apply Hb; right; exact Hc).
+  change (diff_c kind (a :: b :: t)) with
+    ((if kind =? 1 then (if a =? b then 0 else 1) else (b - a) mod 256) :: diff_c kind (b :: t)).
+  rewrite diff_cons2. cbn [map]. rewrite (IH Hbt). f_equal.
+  destruct (Hb a (or_introl eq_refl)) as [-> | ->];
+    destruct (Hb b (or_intror (or_introl eq_refl))) as [-> | ->];
+    destruct Hk as [-> | ->]; reflexivity.
+Qed.
+
+(* the indices are still every change of the line ... *)
+Lemma fronts_c_indices kind x : kind = 1 \/ kind = 2 -> binary x ->
+  fst (fronts1_c kind 1 x) = fst (fronts1 1 x) /\ rises1_c kind 1 x = fst (fronts1 1 x).
+Proof.
+  intros Hk Hb. unfold fronts1_c, rises1_c, fronts1. cbn [fst].
+  rewrite (where_from_map_eq _ (fun v => 1 <=? Z.abs v) _ (diff x) 0 (diff_c_changes kind x Hk Hb)).
+  split; reflexivity.
 Qed.
